@@ -63,9 +63,13 @@ def check_history(ctx, model, nptdms, data, ops, lens, stats):
         mres = r.get("results") if r.get("ok") else None
     ref = None
     known = {p.hex() for p in lens}
+    kept = []          # every delivered chunk object with what it said at delivery
     for k, op in enumerate(ops):
         st.take_log()
-        ro = cl.real_op(f, its, op)
+        nk = len(kept)
+        ro = cl.real_op(f, its, op, keep=kept)
+        if len(kept) > nk:
+            kept[-1] = kept[-1] + (k, {q: v for q, v in ro.items() if q in ("v", "offset", "offsets")})
         stats["ops"] += 1
         if mres is not None:
             c = cl.compare_out(mres[k]["out"], ro, known, None)
@@ -95,6 +99,38 @@ def check_history(ctx, model, nptdms, data, ops, lens, stats):
             if a != b:
                 vio.append(Violation("next() #%d on iterator %d (op %d) differs from an uninterrupted fresh iterator" % (j, op[1], k),
                                      dict(kind="history", file=data.hex(), ops=[cl.op_token(o) for o in ops], at=k, got=ro, expected=exp)))
+                break
+    # after the history: the whole file-level chunk stream drawn in one go and looked at only afterwards
+    if not vio and stats["ops"] % 3 == 0:
+        try:
+            late = list(f.data_chunks())
+            if ref is None:
+                ref = fresh_reference(data, nptdms, lens)
+            seq = [x for x in ref[None] if x.get("k") == "filechunk"]
+            if len(late) != len(seq):
+                vio.append(Violation("after the history, list(TdmsFile.data_chunks()) has %d chunks, a fresh iterator delivers %d" % (len(late), len(seq)),
+                                     dict(kind="history", file=data.hex(), ops=[cl.op_token(o) for o in ops], at=len(ops))))
+            else:
+                for j, chunk in enumerate(late):
+                    now = cl.observe_chunk("f", chunk)
+                    exp = {q: v for q, v in seq[j].items() if q in ("v", "offsets")}
+                    if canon.norm(now) != canon.norm(exp):
+                        vio.append(Violation("after the history, chunk %d of list(TdmsFile.data_chunks()), looked at after the whole stream was drawn, differs from chunk %d of a fresh iterator looked at on delivery: %s vs %s" % (
+                            j, j, str(now)[:120], str(exp)[:120]), dict(kind="history", file=data.hex(), ops=[cl.op_token(o) for o in ops], at=len(ops), got=now, expected=exp)))
+                        break
+        except Exception as ex:  # noqa
+            vio.append(Violation("after the history, list(TdmsFile.data_chunks()) raised %s: %s" % (type(ex).__name__, str(ex)[:100]),
+                                 dict(kind="history", file=data.hex(), ops=[cl.op_token(o) for o in ops], at=len(ops))))
+    # chunks already delivered stay what they were when they were delivered (values and offsets), whatever happened afterwards
+    if not vio:
+        for kind, chunk, at, then in kept:
+            try:
+                now = cl.observe_chunk(kind, chunk)
+            except Exception as ex:  # noqa
+                now = dict(error="%s: %s" % (type(ex).__name__, str(ex)[:100]))
+            if canon.norm(now) != canon.norm(then):
+                vio.append(Violation("the chunk delivered by op %d says something else about itself after the rest of the history ran: then %s, now %s" % (
+                    at, str(then)[:120], str(now)[:120]), dict(kind="history", file=data.hex(), ops=[cl.op_token(o) for o in ops], at=at, got=now, expected=then)))
                 break
     return dis, vio
 
@@ -214,7 +250,7 @@ def run(ctx):
                 stats["with_iter_interleaving"] += 1
             if len(samples) < 2 and len(ops) > 6 and len(data) < 400:
                 samples.append(dict(file_hex=data.hex(), ops=[cl.op_token(o) for o in ops]))
-        if len(violations) >= 5 or len(disagreements) >= 20:
+        if len(violations) >= 5 or len(disagreements) >= ctx.dis_limit:
             break
         if ctx.tier == "quick" and ctx.elapsed() > 45:
             ctx.notes.append("stopped after %d files (time budget)" % fs.drawn)
